@@ -42,20 +42,31 @@ package dnsmsg
 //@ import netip net/netip
 //@ import netutil github.com/AdguardTeam/golibs/netutil
 
+// ecsDataErrs counts the options ecsData has found malformed.
+//@ ghost ecsDataErrs int
 //@ func ecsData
 //@   property C05
 //@   requires esn != nil
-//@   modifies nothing
+//@   modifies ecsDataErrs
+//@   ghostset ecsDataErrs = ecsDataErrs + (err != nil ? 1 : 0)
+//@   ensures ecsDataErrs == old(ecsDataErrs) + (err != nil ? 1 : 0)
 //@   ensures unknown-family-is-malformed: esn.Family != 1 && esn.Family != 2 ==> err != nil
+//@   ensures err == nil ==> prefixValid(subnet) && prefixMasked(subnet) == subnet
 //@   ensures scope == (err == nil ? esn.SourceScope : 0)
 //@   ensures err != nil ==> subnet == zero(netip.Prefix)
 
+// ecsBad records whether the latest ECSFromMsg call found a malformed option.
+//@ ghost ecsBad bool
 //@ func ECSFromMsg
 //@   property C05
+//@   ghostset ecsBad = err != nil
+//@   ensures ecsBad == (err != nil)
+//@   ensures err == nil && subnet != zero(netip.Prefix) ==> prefixValid(subnet) && prefixMasked(subnet) == subnet
 //@   requires msg != nil && (forall i int :: 0 <= i && i < len(msg.Extra) && isOPT(msg.Extra[i]) ==> optAt(msg, i) != nil && (forall j int :: 0 <= j && j < len(optAt(msg, i).Option) && isptr(optAt(msg, i).Option[j], dns.EDNS0_SUBNET) ==> ref(optAt(msg, i).Option[j]) != 0))
-//@   modifies nothing
+//@   modifies ecsBad, ecsDataErrs
+//@   ensures no-malformed-option-is-skipped: err == nil ==> ecsDataErrs == old(ecsDataErrs)
 //@   ensures malformed-option-is-a-bad-ecs-error: err != nil ==> istype(err, BadECSError) && subnet == zero(netip.Prefix)
-//@   loop 1 invariant -1 <= #i && #i < len(opt.Option)
+//@   loop 1 invariant -1 <= #i && #i < len(opt.Option) && ecsDataErrs == old(ecsDataErrs)
 
 // errors.As finds a BadECSError value (it is assignable to the target).
 //@ axiom bad-ecs-error-is-found-by-errors-as: forall e error :: istype(e, BadECSError) ==> errAs(e, ptrtag(BadECSError))
